@@ -27,6 +27,11 @@ func (h *HarnessError) Error() string { return "harness error: " + h.Msg }
 
 type abortRun struct{ why string }
 
+type taskPanic struct {
+	val any
+	pcs []uintptr
+}
+
 // Stats are per-run counters; the driver sums them over all runs.
 type Stats struct {
 	Ops      int            // operations issued against the system under test
@@ -55,9 +60,11 @@ type Env struct {
 	failed  *Violation
 	panicked *taskPanic
 	overrun  bool
+	contended int
 	deadlock string
 	Sched   *Sched
 	cleanup []func()
+	finally []func()
 }
 
 func newEnv(prop, scen, tier string, seed uint64, c *Choices, logOn bool) *Env {
@@ -109,6 +116,11 @@ func (e *Env) Sample(format string, a ...any) {
 func (e *Env) Fault(kind string) { e.Stats.Faults[kind]++; e.Shape("fault:" + kind) }
 func (e *Env) Probe(kind string) { e.Stats.Probes[kind]++ }
 func (e *Env) Op(kind string)    { e.Stats.Ops++; e.Shape(kind) }
+
+// Finally registers an oracle to be evaluated by the root goroutine after every task
+// of the run has finished (outside the bubble; in engine B after the root has a
+// happens-before edge from all tasks). It may call Failf.
+func (e *Env) Finally(f func()) { e.finally = append(e.finally, f) }
 
 // Cleanup registers a function run when the run ends (in reverse order).
 func (e *Env) Cleanup(f func()) { e.cleanup = append(e.cleanup, f) }
